@@ -30,8 +30,9 @@ func init() {
 			}
 			return 20000
 		},
-		Run:      runC06,
-		Required: []string{"within_limit_read_in_full", "over_limit_refused", "close_1009_seen", "alloc_probes", "compressed_targets"},
+		Run:          runC06,
+		BeatTimeoutS: 60,
+		Required:     []string{"within_limit_read_in_full", "over_limit_refused", "close_1009_seen", "alloc_probes", "compressed_targets", "limit_changed_mid_connection", "reads_retried_after_limit_error"},
 		Assumptions: []string{
 			"the limit is counted in payload bytes on the wire (compressed size for compressed messages); the <=L delivered-bytes bound is judged for uncompressed messages only",
 			"allocation is measured with runtime.MemStats.TotalAlloc in a worker that runs one case at a time",
@@ -62,6 +63,11 @@ type c06Case struct {
 	LocalClose    bool `json:"application_sent_close_first,omitempty"`
 	WriteBroken   bool `json:"write_side_broken,omitempty"`
 	StaleDeadline bool `json:"stale_expired_write_deadline,omitempty"`
+	// LimitHist: 0 the limit is set once before reading; 1 earlier messages were read without a limit
+	// and SetReadLimit(L) is called right before the target; 2 same with a larger earlier limit;
+	// 3 SetReadLimit(L) is repeated before every message; 4 SetReadLimit(L) is repeated between the
+	// Read calls of every message (the same value: the limit in force never changes)
+	LimitHist int `json:"limit_history,omitempty"`
 }
 
 func runC06(ctx *core.Ctx, out *core.Out) {
@@ -81,6 +87,9 @@ func runC06(ctx *core.Ctx, out *core.Out) {
 		cs.WriteBroken = true
 	case 2, 3:
 		cs.StaleDeadline = true
+	}
+	if r.Chance(1, 3) {
+		cs.LimitHist = 1 + r.Intn(4)
 	}
 	cs.L = int64([]int{1, 2, 10, 124, 125, 126, 127, 1000, 65535, 65536}[r.Intn(10)])
 	if r.Chance(1, 4) {
@@ -199,7 +208,17 @@ func runC06(ctx *core.Ctx, out *core.Out) {
 	stream := wire.Encode(frames)
 	nc := xport.New(xport.Rechunk(stream, cs.Chunk, r))
 	c := ws.VerifNewConn(nc, cs.Server, cs.RB, 256, nil, nil, false)
-	c.SetReadLimit(cs.L)
+	switch cs.LimitHist {
+	case 1:
+		c.SetReadLimit(0)
+	case 2:
+		c.SetReadLimit(2*cs.L + 7)
+	default:
+		c.SetReadLimit(cs.L)
+	}
+	if cs.LimitHist != 0 {
+		out.Count("limit_changed_mid_connection", 1)
+	}
 	// the application may already have sent its close frame (and keeps reading), or the
 	// write side of the transport may be broken: neither changes what the reader must do
 	switch {
@@ -218,6 +237,9 @@ func runC06(ctx *core.Ctx, out *core.Out) {
 	// play the history
 	fragmentedAbandoned := false
 	for i, h := range cs.Hist {
+		if cs.LimitHist == 3 {
+			c.SetReadLimit(cs.L)
+		}
 		t, rd, err := c.NextReader()
 		if err != nil {
 			sig := "within-limit-message-refused"
@@ -274,12 +296,18 @@ func runC06(ctx *core.Ctx, out *core.Out) {
 	}
 	var got []byte
 	var terr error
+	if cs.LimitHist != 0 {
+		c.SetReadLimit(cs.L)
+	}
 	_, rd, err := c.NextReader()
 	if err != nil {
 		terr = err
 	} else {
 		buf := make([]byte, r.Range(1, 4000))
 		for {
+			if cs.LimitHist == 4 {
+				c.SetReadLimit(cs.L)
+			}
 			n, e := rd.Read(buf)
 			got = append(got, buf[:n]...)
 			if e != nil {
@@ -288,6 +316,18 @@ func runC06(ctx *core.Ctx, out *core.Out) {
 				}
 				break
 			}
+		}
+		if terr != nil {
+			// an application that tries the refused reader again gets nothing more
+			for i := 0; i < 3; i++ {
+				n, e := rd.Read(buf)
+				if n > 0 || e == nil || e == io.EOF {
+					got = append(got, buf[:n]...)
+					out.Violate("C06:read-after-limit-error-delivers", fmt.Sprintf("Read on the message reader after it failed with %v returned (%d, %v)", terr, n, e), map[string]interface{}{"case": cs, "frames": framesDesc(frames, 24)})
+					return
+				}
+			}
+			out.Count("reads_retried_after_limit_error", 1)
 		}
 	}
 	if !over {
